@@ -54,4 +54,16 @@ PROPS["C12"] = {
     "explanation": "state-machine model of admission control",
 }
 
+PROPS["C11"] = {
+    "proof_files": ["Proofs/Hub.v", "Proofs/HubLocks.v"],
+    "gen_files": ["Gen/HubLocks.v"],
+    "corr": ["C11"],
+    "trusted_base": ["tie to the code: CORRESPONDENCE - Model/Hub.v is hand-written at lock-phase granularity; histories run on a real peers.Hub with remove / CloseSession / Broadcast parked at verifhook points in harness-chosen orders; outputs, writer logs, routing maps and recovered panics compared in coqc"],
+    "assumptions": ["preemption is represented at lock / channel-operation granularity (one model step per critical section or channel send)", "the 1 s wait for the writer in remove() always ends (writers are released by the harness)"],
+    "level_text": "Invariants of the hub's routing state proved over all interleavings of the lock-delimited phases of Add/remove/CloseSession/SendTo/Broadcast/BroadcastExcept on an executable model checked history-by-history against the real hub; the refuted clauses come with witnesses replayed on the implementation.",
+    "level_note": "Trusted: Coq kernel, harness, hook points. Modelled not verified: Go's scheduler below lock granularity, the WebSocket I/O of writers.",
+    "technique": "Coq invariants over phase-level operation histories + forced-schedule correspondence with the real hub",
+    "explanation": "phase-level model of the hub",
+}
+
 NOT_APPLICABLE = {}
